@@ -36,19 +36,24 @@ func openDefaultPoll() (*defaultPoll, error) {
 		return nil, err
 	}
 	poll.fd = p
+	vp(vpFdOpen, nil, int64(p), 7)
 
 	r0, _, e0 := syscall.Syscall(syscall.SYS_EVENTFD2, 0, 0, 0)
 	if e0 != 0 {
+		vp(vpFdClose, nil, int64(poll.fd), 7)
 		_ = syscall.Close(poll.fd)
 		return nil, e0
 	}
 
+	vp(vpFdOpen, nil, int64(r0), 8)
 	poll.Reset = poll.reset
 	poll.Handler = poll.handler
 	poll.wop = &FDOperator{FD: int(r0)}
 
 	if err = poll.Control(poll.wop, PollReadable); err != nil {
+		vp(vpFdClose, nil, int64(poll.wop.FD), 8)
 		_ = syscall.Close(poll.wop.FD)
+		vp(vpFdClose, nil, int64(poll.fd), 7)
 		_ = syscall.Close(poll.fd)
 		return nil, err
 	}
@@ -119,6 +124,7 @@ func (p *defaultPoll) handler(events []epollevent) (closed bool) {
 	var triggerRead, triggerWrite, triggerHup, triggerError bool
 	var err error
 	for i := range events {
+		vp(vpHandlerEvent, unsafe.Pointer(p), int64(i), int64(len(events)))
 		operator := p.getOperator(0, unsafe.Pointer(&events[i].data))
 		if operator == nil || !operator.do() {
 			continue
@@ -138,7 +144,9 @@ func (p *defaultPoll) handler(events []epollevent) (closed bool) {
 			atomic.StoreUint32(&p.trigger, 0)
 			// if closed & exit
 			if p.buf[0] > 0 {
+				vp(vpFdClose, nil, int64(p.wop.FD), 8)
 				syscall.Close(p.wop.FD)
+				vp(vpFdClose, nil, int64(p.fd), 7)
 				syscall.Close(p.fd)
 				operator.done()
 				return true
